@@ -575,11 +575,18 @@ func genC16(g *Gen) {
 		if i%3 == 0 {
 			names = c16FewNames
 		}
+		// entry names holding pattern metacharacters literally, addressed by backslash-escaped
+		// patterns (no unescaped wildcard, yet not a byte prefix of what they match): seed C16-m
+		meta := i%10 == 7
+		if meta {
+			names = append([]string{"a", "b", "app", "c"}, c10MetaNames...)
+		}
 		view := c16View(r, names, i%4 == 1)
 		paths := viewPaths(view)
 		mode, name := 0, ""
 		srcRel := view // the tree the patterns are aimed at
 		switch x := r.Intn(100); {
+		case meta: // a top-level name like "*" must not become a wildcard source
 		case x < 18 && len(view) > 0:
 			top := Pick(r, view)
 			mode, name = 1, top.Name
@@ -604,16 +611,25 @@ func genC16(g *Gen) {
 		}
 		var inc, exc []string
 		var tag string
-		switch i % 5 {
-		case 0, 1:
+		var escaped []string
+		var escSide byte
+		if meta {
+			escaped, escSide = c10EscapedList(r, paths, classes)
+		}
+		switch {
+		case escaped != nil && escSide == 'i':
+			inc, tag = escaped, "escaped-literal-inc"
+		case escaped != nil:
+			exc, tag = escaped, "escaped-literal-exc"
+		case i%5 <= 1:
 			inc, exc, tag = c16Directed(r, srcRel, paths, classes)
-		case 2:
+		case i%5 == 2:
 			inc = genPatternList(r, paths, srcRel, classes, 1)
 			if r.Chance(40) {
 				exc = genPatternList(r, paths, srcRel, classes, 2)
 			}
 			tag = "prefix-inc"
-		case 3:
+		case i%5 == 3:
 			exc = genPatternList(r, paths, srcRel, classes, 2)
 			if r.Chance(40) {
 				inc = genPatternList(r, paths, srcRel, classes, 1)
@@ -677,18 +693,31 @@ func genC16(g *Gen) {
 		if i%25 == 24 {
 			names = append(append([]string{}, c10Names[:4]...), c10UnsafeNames...)
 		}
+		meta := i%10 == 7
+		if meta {
+			names = append([]string{"a", "b", "app", "c"}, c10MetaNames...)
+		}
 		view := c16View(r, names, i%4 == 1)
 		paths := viewPaths(view)
 		var inc, exc []string
 		tag := "walk"
-		switch i % 4 {
-		case 0:
+		var escaped []string
+		var escSide byte
+		if meta {
+			escaped, escSide = c10EscapedList(r, paths, classes)
+		}
+		switch {
+		case escaped != nil && escSide == 'i':
+			inc, tag = escaped, "walk-escaped-literal-inc"
+		case escaped != nil:
+			exc, tag = escaped, "walk-escaped-literal-exc"
+		case i%4 == 0:
 			inc, exc, tag = c16Directed(r, view, paths, classes)
 			tag = "walk-" + tag
-		case 1:
+		case i%4 == 1:
 			inc = genPatternList(r, paths, view, classes, 1)
 			tag = "walk-prefix-inc"
-		case 2:
+		case i%4 == 2:
 			exc = genPatternList(r, paths, view, classes, 2)
 			tag = "walk-prefix-exc"
 		default:
